@@ -80,9 +80,9 @@ Print Assumptions C06_rules_no_cycle.
 (** * Non-vacuity: one meta-model that satisfies all rules, and for every rule a
     meta-model that breaks exactly that rule. *)
 Definition V := rule_verdicts reserved_data.
-(* the list of the 16 per-rule verdicts with [false] exactly at the positions [ks] *)
+(* the list of the 17 per-rule verdicts with [false] exactly at the positions [ks] *)
 Definition falses (ks : list nat) : list bool :=
-  map (fun i => negb (existsb (Nat.eqb i) ks)) (seq 0 16).
+  map (fun i => negb (existsb (Nat.eqb i) ks)) (seq 0 17).
 
 Definition tint := TPrim (s2l "int").
 Definition tstr := TPrim (s2l "str").
@@ -154,7 +154,10 @@ Definition bad15 := mkMM g_enums g_cprims [g_base; g_derived] g_consts g_funs g_
 Definition bad16 := mkMM g_enums g_cprims [g_base; g_derived] g_consts [mkFun (s2l "matches_id") (Some (s2l "^[a-z]+"))] g_cids g_refs.
 Definition bad16b := mkMM g_enums g_cprims [g_base; g_derived] g_consts [mkFun (s2l "matches_id") (Some [])] g_cids g_refs.
 (* diamond: stacked once *)
-Definition dia := with_classes [g_base;
+Definition g_base_plain := mkCls (s2l "Vehicle") [] [mkProp (s2l "x") tint; mkProp (s2l "y") (TOpt tstr)]
+  [] [s2l "x is positive"]
+  (Some [mkArg (s2l "x") tint NoDefault; mkArg (s2l "y") (TOpt tstr) DefaultNone]).
+Definition dia_over top := with_classes [top;
   mkCls (s2l "Left") [s2l "Vehicle"] [] [] [] (Some [mkArg (s2l "x") tint NoDefault; mkArg (s2l "y") (TOpt tstr) DefaultNone]);
   mkCls (s2l "Right") [s2l "Vehicle"] [] [] [] (Some [mkArg (s2l "x") tint NoDefault; mkArg (s2l "y") (TOpt tstr) DefaultNone]);
   mkCls (s2l "Car") [s2l "Left"; s2l "Right"] [] [] [] (Some [mkArg (s2l "x") tint NoDefault; mkArg (s2l "y") (TOpt tstr) DefaultNone])].
@@ -164,6 +167,7 @@ Example C06_ex_good :
 Proof. vm_compute. repeat split; reflexivity. Qed.
 Print Assumptions C06_ex_good.
 
+Definition dia := dia_over g_base_plain.
 (* a diamond: the properties and invariants of the common ancestor are stacked once *)
 Example C06_ex_diamond :
   rulesb reserved_data dia = true
@@ -171,6 +175,12 @@ Example C06_ex_diamond :
   /\ stacked_invs dia (s2l "Car") = [s2l "x is positive"].
 Proof. vm_compute. repeat split; reflexivity. Qed.
 Print Assumptions C06_ex_diamond.
+
+(* ... but a method cannot be inherited along two paths (as in the front end) *)
+Example C06_ex_diamond_method :
+  rulesb reserved_data (dia_over g_base) = false /\ V (dia_over g_base) = falses [16]%nat.
+Proof. vm_compute. split; reflexivity. Qed.
+Print Assumptions C06_ex_diamond_method.
 
 Example C06_ex_good_satisfies_Rules : Rules reserved_data good.
 Proof. apply C06_rulesb_spec_partial. vm_compute. reflexivity. Qed.
@@ -196,7 +206,7 @@ Example C06_ex_type_reserved_prefix : rulesb reserved_data bad4b = false /\ V ba
 Proof. vm_compute. split; reflexivity. Qed.
 Print Assumptions C06_ex_type_reserved_prefix.
 
-Example C06_ex_members_unique : rulesb reserved_data bad5 = false /\ V bad5 = falses [4]%nat.
+Example C06_ex_members_unique : rulesb reserved_data bad5 = false /\ V bad5 = falses [4; 16]%nat.
 Proof. vm_compute. split; reflexivity. Qed.
 Print Assumptions C06_ex_members_unique.
 
@@ -224,11 +234,11 @@ Example C06_ex_function_reserved : rulesb reserved_data bad10 = false /\ V bad10
 Proof. vm_compute. split; reflexivity. Qed.
 Print Assumptions C06_ex_function_reserved.
 
-Example C06_ex_redeclared_property : rulesb reserved_data bad11 = false /\ V bad11 = falses [10]%nat.
+Example C06_ex_redeclared_property : rulesb reserved_data bad11 = false /\ V bad11 = falses [10; 16]%nat.
 Proof. vm_compute. split; reflexivity. Qed.
 Print Assumptions C06_ex_redeclared_property.
 
-Example C06_ex_redeclared_method : rulesb reserved_data bad11b = false /\ V bad11b = falses [10]%nat.
+Example C06_ex_redeclared_method : rulesb reserved_data bad11b = false /\ V bad11b = falses [10; 16]%nat.
 Proof. vm_compute. split; reflexivity. Qed.
 Print Assumptions C06_ex_redeclared_method.
 
@@ -275,6 +285,42 @@ Print Assumptions C06_ex_pattern_without_dollar.
 Example C06_ex_empty_pattern : rulesb reserved_data bad16b = false /\ V bad16b = falses [15]%nat.
 Proof. vm_compute. split; reflexivity. Qed.
 Print Assumptions C06_ex_empty_pattern.
+
+(* two unrelated parents bring a property / a method of the same name, or invariants with
+   the same description *)
+Definition par (n p : text) (meths : list text) (inv : text) :=
+  mkCls n [] [mkProp p tstr] meths [inv] (Some [mkArg p tstr NoDefault]).
+Definition two_parents pa pb ma mb ia ib args :=
+  mkMM g_enums g_cprims
+       [par (s2l "Left") pa ma ia; par (s2l "Right") pb mb ib;
+        mkCls (s2l "Both") [s2l "Left"; s2l "Right"] [] [] [] (Some args)]
+       g_consts g_funs g_cids [RType (s2l "Both"); RAttr (Some (s2l "Both")) pa].
+Definition ok_two := two_parents (s2l "x") (s2l "y") [s2l "compute"] [s2l "render"] (s2l "left holds") (s2l "right holds")
+  [mkArg (s2l "x") tstr NoDefault; mkArg (s2l "y") tstr NoDefault].
+Definition bad_two_props := two_parents (s2l "x") (s2l "x") [] [] (s2l "left holds") (s2l "right holds") [mkArg (s2l "x") tstr NoDefault].
+Definition bad_two_methods := two_parents (s2l "x") (s2l "y") [s2l "compute"] [s2l "compute"] (s2l "left holds") (s2l "right holds")
+  [mkArg (s2l "x") tstr NoDefault; mkArg (s2l "y") tstr NoDefault].
+Definition bad_two_invs := two_parents (s2l "x") (s2l "y") [] [] (s2l "it holds") (s2l "it holds")
+  [mkArg (s2l "x") tstr NoDefault; mkArg (s2l "y") tstr NoDefault].
+
+Example C06_ex_two_parents_ok : rulesb reserved_data ok_two = true.
+Proof. vm_compute. reflexivity. Qed.
+Print Assumptions C06_ex_two_parents_ok.
+
+Example C06_ex_property_from_two_parents :
+  rulesb reserved_data bad_two_props = false /\ V bad_two_props = falses [16]%nat.
+Proof. vm_compute. split; reflexivity. Qed.
+Print Assumptions C06_ex_property_from_two_parents.
+
+Example C06_ex_method_from_two_parents :
+  rulesb reserved_data bad_two_methods = false /\ V bad_two_methods = falses [16]%nat.
+Proof. vm_compute. split; reflexivity. Qed.
+Print Assumptions C06_ex_method_from_two_parents.
+
+Example C06_ex_invariants_from_two_parents :
+  rulesb reserved_data bad_two_invs = false /\ V bad_two_invs = falses [13]%nat.
+Proof. vm_compute. split; reflexivity. Qed.
+Print Assumptions C06_ex_invariants_from_two_parents.
 
 Example C06_ex_broken_rule_refutes_Rules : ~ Rules reserved_data bad13_ll.
 Proof. intro H. apply C06_rulesb_spec_partial in H. vm_compute in H. discriminate. Qed.
